@@ -31,3 +31,277 @@ theorem decodeRune_width (s : Bytes) (hs : s ≠ []) :
     exact decode_width h
 
 end ModVerif.Proofs.ModfileLex
+
+namespace ModVerif.Proofs.ModfileLex
+open ModVerif ModVerif.Modfile
+
+/-! ### readRune -/
+
+/-- the error is not one of the "internal error" kinds -/
+def NotInternal (e : SynErr) : Prop := ∀ t, e.kind ≠ .internal t
+
+/-- a result that is not an internal error -/
+def NoInternal {α : Type} (r : Except SynErr α) : Prop := ∀ e, r = .error e → NotInternal e
+
+theorem noInternal_ok {α : Type} (a : α) : NoInternal (Except.ok a : Except SynErr α) := by
+  intro e h; cases h
+
+theorem readRune_ok (i : Input) (h : i.remaining ≠ []) :
+    ∃ r i', readRune i = .ok (r, i') ∧ i'.remaining.length < i.remaining.length ∧
+      i'.token = i.token ∧ i'.commentsRev = i.commentsRev ∧ i'.nextId = i.nextId := by
+  have hw := decodeRune_width i.remaining h
+  unfold readRune
+  cases hr : i.remaining with
+  | nil => exact absurd hr h
+  | cons a t =>
+    rw [hr] at hw
+    refine ⟨_, _, rfl, ?_, rfl, rfl, rfl⟩
+    simp only [List.length_drop, List.length_cons] at *
+    omega
+
+theorem eof_false_iff (i : Input) : i.eof = false ↔ i.remaining ≠ [] := by
+  unfold Input.eof; cases i.remaining <;> simp
+
+/-! ### the lexer loops never run out of fuel and never read past the end -/
+
+theorem skipSpaces_spec : ∀ (fuel : Nat) (i : Input), i.remaining.length < fuel →
+    ∃ i', skipSpaces fuel i = .ok i' ∧ i'.remaining.length ≤ i.remaining.length ∧
+      i'.commentsRev = i.commentsRev ∧ i'.nextId = i.nextId := by
+  intro fuel
+  induction fuel with
+  | zero => intro i h; omega
+  | succ n ih =>
+    intro i h
+    unfold skipSpaces
+    cases he : i.eof with
+    | true => exact ⟨i, by simp, Nat.le_refl _, rfl, rfl⟩
+    | false =>
+      simp only [Bool.false_eq_true, if_false]
+      split
+      · obtain ⟨r, i1, h1, hlt, _, hc, hn⟩ := readRune_ok i ((eof_false_iff i).1 he)
+        obtain ⟨i2, h2, hle, hc2, hn2⟩ := ih i1 (by omega)
+        refine ⟨i2, ?_, by omega, by rw [hc2, hc], by rw [hn2, hn]⟩
+        simp [h1, bind, Except.bind, h2]
+      · exact ⟨i, rfl, Nat.le_refl _, rfl, rfl⟩
+
+theorem consumeLine_spec : ∀ (fuel : Nat) (i : Input), i.remaining.length < fuel →
+    ∃ i', consumeLine fuel i = .ok i' ∧ i'.remaining.length ≤ i.remaining.length ∧
+      i'.commentsRev = i.commentsRev ∧ i'.nextId = i.nextId ∧ i'.token = i.token := by
+  intro fuel
+  induction fuel with
+  | zero => intro i h; omega
+  | succ n ih =>
+    intro i h
+    unfold consumeLine
+    cases he : i.eof with
+    | true => exact ⟨i, by simp, Nat.le_refl _, rfl, rfl, rfl⟩
+    | false =>
+      simp only [Bool.false_eq_true, if_false]
+      obtain ⟨r, i1, h1, hlt, ht, hc, hn⟩ := readRune_ok i ((eof_false_iff i).1 he)
+      by_cases hr : r = 10
+      · refine ⟨i1, ?_, by omega, hc, hn, ht⟩
+        simp [h1, bind, Except.bind, hr]
+      · obtain ⟨i2, h2, hle, hc2, hn2, ht2⟩ := ih i1 (by omega)
+        refine ⟨i2, ?_, by omega, by rw [hc2, hc], by rw [hn2, hn], by rw [ht2, ht]⟩
+        simp [h1, bind, Except.bind, hr, h2]
+
+theorem readString_spec (q : Nat) : ∀ (fuel : Nat) (i : Input), i.remaining.length < fuel →
+    (∃ i', readString q fuel i = .ok i' ∧ i'.remaining.length ≤ i.remaining.length ∧
+        i'.commentsRev = i.commentsRev ∧ i'.nextId = i.nextId) ∨
+    (∃ e, readString q fuel i = .error e ∧ NotInternal e) := by
+  intro fuel
+  induction fuel with
+  | zero => intro i h; omega
+  | succ n ih =>
+    intro i h
+    unfold readString
+    cases he : i.eof with
+    | true => exact Or.inr ⟨⟨i.token.pos, .eofInString⟩, by simp, by intro t; simp⟩
+    | false =>
+      simp only [Bool.false_eq_true, if_false]
+      split
+      · exact Or.inr ⟨_, rfl, by intro t; simp [Input.error]⟩
+      · obtain ⟨r, i1, h1, hlt, ht, hc, hn⟩ := readRune_ok i ((eof_false_iff i).1 he)
+        simp only [h1, bind, Except.bind]
+        split
+        · exact Or.inl ⟨i1, rfl, by omega, hc, hn⟩
+        · split
+          · cases he1 : i1.eof with
+            | true => exact Or.inr ⟨⟨i1.token.pos, .eofInString⟩, by simp, by intro t; simp⟩
+            | false =>
+              simp only [Bool.false_eq_true, if_false]
+              obtain ⟨r2, i2, h2, hlt2, ht2, hc2, hn2⟩ := readRune_ok i1 ((eof_false_iff i1).1 he1)
+              simp only [h2]
+              rcases ih i2 (by omega) with ⟨i3, h3, hle, hc3, hn3⟩ | ⟨e, h3, hne⟩
+              · exact Or.inl ⟨i3, h3, by omega, by rw [hc3, hc2, hc], by rw [hn3, hn2, hn]⟩
+              · exact Or.inr ⟨e, h3, hne⟩
+          · rcases ih i1 (by omega) with ⟨i3, h3, hle, hc3, hn3⟩ | ⟨e, h3, hne⟩
+            · exact Or.inl ⟨i3, h3, by omega, by rw [hc3, hc], by rw [hn3, hn]⟩
+            · exact Or.inr ⟨e, h3, hne⟩
+
+end ModVerif.Proofs.ModfileLex
+
+namespace ModVerif.Proofs.ModfileLex
+open ModVerif ModVerif.Modfile
+
+theorem peekRune_nil {i : Input} (h : i.remaining = []) : i.peekRune = 0 := by
+  unfold Input.peekRune; rw [h]
+
+theorem isIdent_zero : isIdent 0 = false := by decide
+
+theorem remaining_ne_of_isIdent {i : Input} (h : isIdent i.peekRune = true) : i.remaining ≠ [] := by
+  intro hn
+  rw [peekRune_nil hn, isIdent_zero] at h
+  cases h
+
+theorem readIdent_spec : ∀ (fuel : Nat) (i : Input), i.remaining.length < fuel →
+    (∃ i', readIdent fuel i = .ok i' ∧ i'.remaining.length ≤ i.remaining.length ∧
+        i'.commentsRev = i.commentsRev ∧ i'.nextId = i.nextId ∧
+        ((isIdent i.peekRune = true ∧ i.peekPrefix [47, 47] = false ∧ i.peekPrefix [47, 42] = false) →
+          i'.remaining.length < i.remaining.length)) ∨
+    (∃ e, readIdent fuel i = .error e ∧ NotInternal e) := by
+  intro fuel
+  induction fuel with
+  | zero => intro i h; omega
+  | succ n ih =>
+    intro i h
+    unfold readIdent
+    cases hid : isIdent i.peekRune with
+    | false => exact Or.inl ⟨i, by simp, Nat.le_refl _, rfl, rfl, by intro h; simp at h⟩
+    | true =>
+      simp only [if_true]
+      cases hp1 : i.peekPrefix [47, 47] with
+      | true => exact Or.inl ⟨i, by simp, Nat.le_refl _, rfl, rfl, by intro h; simp at h⟩
+      | false =>
+        simp only [Bool.false_eq_true, if_false]
+        cases hp2 : i.peekPrefix [47, 42] with
+        | true => exact Or.inr ⟨i.error .blockComment, by simp, by intro t; simp [Input.error]⟩
+        | false =>
+          simp only [Bool.false_eq_true, if_false]
+          obtain ⟨r, i1, h1, hlt, ht, hc, hn⟩ := readRune_ok i (remaining_ne_of_isIdent hid)
+          simp only [h1, bind, Except.bind]
+          rcases ih i1 (by omega) with ⟨i2, h2, hle, hc2, hn2, _⟩ | ⟨e, h2, hne⟩
+          · exact Or.inl ⟨i2, h2, by omega, by rw [hc2, hc], by rw [hn2, hn], by intro _; omega⟩
+          · exact Or.inr ⟨e, h2, hne⟩
+
+theorem decodeRune_ascii (b : UInt8) (rest : Bytes) (h : b.toNat < 0x80) :
+    Utf8.decodeRune (b :: rest) = (b.toNat, 1) := by
+  unfold Utf8.decodeRune Utf8.decode
+  simp [h]
+
+theorem readRune_remaining {i : Input} {r : Nat} {i' : Input} (h : readRune i = .ok (r, i')) :
+    i'.remaining = i.remaining.drop (Utf8.decodeRune i.remaining).2 := by
+  unfold readRune at h
+  split at h
+  · cases h
+  · simp only [Except.ok.injEq, Prod.mk.injEq] at h
+    obtain ⟨_, rfl⟩ := h
+    rfl
+
+@[simp] theorem startToken_remaining (i : Input) : (startToken i).remaining = i.remaining := rfl
+@[simp] theorem startToken_commentsRev (i : Input) : (startToken i).commentsRev = i.commentsRev := rfl
+@[simp] theorem startToken_nextId (i : Input) : (startToken i).nextId = i.nextId := rfl
+@[simp] theorem endToken_remaining (k : TokKind) (i : Input) : (endToken k i).remaining = i.remaining := rfl
+@[simp] theorem endToken_nextId (k : TokKind) (i : Input) : (endToken k i).nextId = i.nextId := rfl
+@[simp] theorem endToken_kind (k : TokKind) (i : Input) : (endToken k i).token.kind = k := rfl
+
+theorem isPrefix_cons_ne_nil {p : UInt8} {ps s : Bytes} (h : isPrefixOfB (p :: ps) s = true) : s ≠ [] := by
+  intro hs; rw [hs] at h; simp [isPrefixOfB] at h
+
+/-- readComment (entered when the input starts with `//`): no internal error, strict progress. -/
+theorem readComment_spec (i : Input) (hp : i.peekPrefix [47, 47] = true) :
+    ∃ i', readComment i = .ok i' ∧ i'.remaining.length < i.remaining.length ∧ i'.nextId = i.nextId := by
+  unfold Input.peekPrefix at hp
+  have hne : i.remaining ≠ [] := isPrefix_cons_ne_nil hp
+  -- the input is '/' '/' …
+  obtain ⟨t, ht⟩ : ∃ t, i.remaining = 47 :: 47 :: t := by
+    cases hr : i.remaining with
+    | nil => exact absurd hr hne
+    | cons a r1 =>
+      rw [hr] at hp
+      cases r1 with
+      | nil => simp [isPrefixOfB] at hp
+      | cons b r2 =>
+        simp [isPrefixOfB] at hp
+        exact ⟨r2, by rw [← hp.1, ← hp.2]⟩
+  unfold readComment
+  obtain ⟨r1, i1, h1, hlt1, _, _, hn1⟩ := readRune_ok (startToken i) (by simpa using hne)
+  have hrem1 : i1.remaining = 47 :: t := by
+    rw [readRune_remaining h1, startToken_remaining, ht, decodeRune_ascii 47 _ (by decide)]
+    rfl
+  obtain ⟨r2, i2, h2, hlt2, _, _, hn2⟩ := readRune_ok i1 (by rw [hrem1]; simp)
+  obtain ⟨i3, h3, hle3, _, hn3, _⟩ := consumeLine_spec (i2.remaining.length + 1) i2 (by omega)
+  simp only [h1, h2, h3, bind, Except.bind]
+  simp only [startToken_remaining] at hlt1
+  split
+  · exact ⟨_, rfl, by simp; omega, by simp [hn3, hn2, hn1]⟩
+  · exact ⟨_, rfl, by simp; omega, by simp [hn3, hn2, hn1]⟩
+
+/-- readToken never reports an internal error; the input never grows; a token other than EOF
+    consumes at least one byte; the line-identity counter is untouched. -/
+theorem readToken_spec (i : Input) :
+    (∃ i', readToken i = .ok i' ∧ i'.remaining.length ≤ i.remaining.length ∧
+        (i'.token.kind ≠ .eof → i'.remaining.length < i.remaining.length) ∧ i'.nextId = i.nextId) ∨
+    (∃ e, readToken i = .error e ∧ NotInternal e) := by
+  unfold readToken
+  obtain ⟨i0, h0, hle0, _, hn0⟩ := skipSpaces_spec (i.remaining.length + 1) i (by omega)
+  simp only [h0, bind, Except.bind]
+  cases he : i0.eof with
+  | true =>
+    simp only [Bool.not_true, Bool.false_and, Bool.false_eq_true, if_false]
+    have : (startToken i0).eof = true := he
+    simp only [this, if_true]
+    exact Or.inl ⟨_, rfl, by simpa using hle0, by intro h; simp at h, by simp [hn0]⟩
+  | false =>
+    have hne0 : i0.remaining ≠ [] := (eof_false_iff i0).1 he
+    simp only [Bool.not_false, Bool.true_and]
+    cases hp1 : i0.peekPrefix [47, 47] with
+    | true =>
+      simp only [if_true]
+      obtain ⟨i1, h1, hlt, hn1⟩ := readComment_spec i0 hp1
+      exact Or.inl ⟨i1, h1, by omega, by intro _; omega, by rw [hn1, hn0]⟩
+    | false =>
+      simp only [Bool.false_eq_true, if_false]
+      cases hp2 : i0.peekPrefix [47, 42] with
+      | true => exact Or.inr ⟨i0.error .blockComment, by simp, by intro t; simp [Input.error]⟩
+      | false =>
+        simp only [Bool.false_eq_true, if_false]
+        have hse : (startToken i0).eof = false := he
+        simp only [hse, Bool.false_eq_true, if_false]
+        have hpk : (startToken i0).peekRune = i0.peekRune := rfl
+        obtain ⟨r1, i1, h1, hlt1, _, _, hn1⟩ := readRune_ok (startToken i0) (by simpa using hne0)
+        simp only [startToken_remaining] at hlt1
+        simp only [startToken_nextId] at hn1
+        split
+        · -- punctuation
+          simp only [h1]
+          exact Or.inl ⟨_, rfl, by simp; omega, by intro _; simp; omega, by simp [hn1, hn0]⟩
+        · split
+          · -- quoted string
+            simp only [h1]
+            rcases readString_spec (startToken i0).peekRune (i1.remaining.length + 1) i1 (by omega) with ⟨i2, h2, hle2, _, hn2⟩ | ⟨e, h2, hne⟩
+            · simp only [h2]
+              exact Or.inl ⟨_, rfl, by simp; omega, by intro _; simp; omega, by simp [hn2, hn1, hn0]⟩
+            · simp only [h2]
+              exact Or.inr ⟨e, rfl, hne⟩
+          · split
+            · exact Or.inr ⟨_, rfl, by intro t; simp [Input.error]⟩
+            · rename_i hid
+              rcases readIdent_spec ((startToken i0).remaining.length + 1) (startToken i0) (by omega) with
+                ⟨i2, h2, hle2, _, hn2, hprog⟩ | ⟨e, h2, hne⟩
+              · simp only [h2]
+                have hp := hprog ⟨by simpa [hpk] using hid, hp1, hp2⟩
+                simp only [startToken_remaining] at hp hle2
+                exact Or.inl ⟨_, rfl, by simp; omega, by intro _; simp; omega, by simp [hn2, hn0]⟩
+              · simp only [h2]
+                exact Or.inr ⟨e, rfl, hne⟩
+
+/-- The lexer half of `parse_no_internal_error`: no call of `readToken` yields an internal error
+    ("readRune at EOF", or the model's out-of-fuel marker). -/
+theorem readToken_noInternal (i : Input) : NoInternal (readToken i) := by
+  intro e h
+  rcases readToken_spec i with ⟨i', h', _⟩ | ⟨e', h', hne⟩
+  · rw [h'] at h; cases h
+  · rw [h'] at h; cases h; exact hne
+
+end ModVerif.Proofs.ModfileLex
